@@ -85,7 +85,8 @@ def gen_comp(rng, name="comp", step=60):
     # an older location of the version is still configured first; the file left there is a note, not a number
     old_note = rng.choice(["see VERSION", "moved", "1.x"]) if (master_mode or saved_mode) and rng.random() < 0.3 else None
     for cid in range(1, m + 1):
-        msg = "BUG-7 c%d" % cid if rng.random() < 0.5 else "misc"
+        msg = "BUG-7 c%d" % cid if rng.random() < 0.5 else "misc" if rng.random() < 0.7 else \
+            "rework of the cache\n\nsecond part of BUG-7 (c%d)" % cid     # (the ticket is named in the message body)
         if master_mode and cid > 1 and rng.random() < 0.3:
             minor += 1
         files = {"VERSION": "%d.%d" % (major, minor)} if master_mode else {}
@@ -118,7 +119,8 @@ def gen_comp(rng, name="comp", step=60):
         # the side branch may have been started (much) later than the main line ended
         later = m + (rng.choice([0, 0, 3, 40]) if step > 60 else 0)
         for cid in range(m + 1, m + k + 1):
-            msg = "BUG-7 c%d" % cid if rng.random() < 0.5 else "misc"
+            msg = "BUG-7 c%d" % cid if rng.random() < 0.5 else "misc" if rng.random() < 0.7 else \
+            "rework of the cache\n\nsecond part of BUG-7 (c%d)" % cid     # (the ticket is named in the message body)
             commits[cid] = mg.Commit(name, cid, [prev], msg, base + (cid + later) * step,
                                      dict({"version.txt": old_note} if old_note else {}, VERSION="10.30")
                                      if master_mode else {})
@@ -351,6 +353,28 @@ def judge_component(ctx, data, cname, comp, par, versions, pins, case):
         side_owned = mg.ancestors(comp.commits[comp.branches["origin/release/10.30"]])
     n_entries = 0
     problems = []
+    # which component builds are report-related is decided here, not taken from the report: a build is, when it is the
+    # earliest build of the main line containing a commit whose message names the ticket (anywhere in the message)
+    reported_builds = {r.rcommit.commit.intid for cbr in crg.branches for r in cbr.rbuilds.values()
+                       if r.build_type == RBuild.NORMAL and r.rcommit is not None}
+    build_commits = sorted({cid for cid in comp.tags.values() if cid in main_line})
+    times = [c.committed_date for c in comp.commits.values()]
+    # (a branch whose head is more than 30 days older than the newest report-related commit is left out of the
+    # report on purpose: the trace is only made for components whose whole history lies inside 29 days)
+    traceable = max(times) - min(times) <= 29 * 86400 and len(main_line) <= 60
+    anc_of_build = {b: mg.ancestors(comp.commits[b]) for b in build_commits} if traceable else {}
+    for cid in sorted(main_line):
+        if TEXT not in comp.commits[cid].message or not comp.tags or not traceable:
+            continue
+        containing = [b for b in build_commits if cid in anc_of_build[b]]
+        if not containing:
+            continue
+        earliest = [b for b in containing if not any(x != b and x in anc_of_build[b] for x in containing)]
+        ctx.count("ticket_commits_traced_to_their_component_build")
+        if not set(earliest) & reported_builds:
+            problems.append(("report-related-component-build-missing-from-the-report",
+                             {"commit": cid, "message": comp.commits[cid].message[:60], "earliest_builds": earliest,
+                              "reported_builds": sorted(reported_builds)}))
     for cbr in crg.branches:
         for r in cbr.rbuilds.values():
             if r.build_type != RBuild.NORMAL:
